@@ -238,11 +238,21 @@ func coreNatives() map[string]stubFn {
 		},
 		"time.Unix": func(m *Machine, c *frame, fn *ssa.Function, a []Value) Value {
 			sec, nsec := m.term(a[0]), m.term(a[1])
+			if !sec.Const {
+				// instants are a 64-bit nanosecond line: whole seconds beyond +-292 years
+				// from 1970 are outside the model
+				m.assertPC(sym.SLe(sym.BVConst(64, uint64(-9200000000&(1<<64-1))), sec))
+				m.assertPC(sym.SLe(sec, sym.BVConst(64, 9200000000)))
+			}
 			return m.mkTime(sym.True(), sym.Add(sym.Mul(sec, sym.BVConst(64, 1000000000)), nsec))
 		},
 		"(time.Time).UnixNano": func(m *Machine, c *frame, fn *ssa.Function, a []Value) Value { _, ns := timeParts(a[0]); return ns },
 		"(time.Time).Unix": func(m *Machine, c *frame, fn *ssa.Function, a []Value) Value {
 			_, ns := timeParts(a[0])
+			// whole seconds built by time.Unix(sec, 0): sec*1e9/1e9 == sec within the modelled range
+			if ns.Op == "bvmul" && len(ns.Args) == 2 && ns.Args[1].Const && ns.Args[1].U == 1000000000 {
+				return ns.Args[0]
+			}
 			return sym.SDiv(ns, sym.BVConst(64, 1000000000))
 		},
 		"(time.Time).IsZero": func(m *Machine, c *frame, fn *ssa.Function, a []Value) Value { nz, _ := timeParts(a[0]); return sym.Not(nz) },
